@@ -166,7 +166,7 @@ def num_abs(x):
     """Abstract a Python / numpy number: exact integer value (if any) and IEEE images (trusted conversions)."""
     fx = float(x)
     isint = (isinstance(x, (int, np.integer)) and not isinstance(x, bool)) or (fx == fx and fx not in (float('inf'), float('-inf')) and fx.is_integer() and abs(fx) < 2 ** 53)
-    out = {'k': 'num', 'isint': bool(isint), 'f64': f64_bytes(fx)}
+    out = {'k': 'num', 'isint': bool(isint), 'f64': f64_bytes(fx), 'pt': type(x).__name__}
     out['iv'] = slimbs(int(x)) if isint else slimbs(0)
     with np.errstate(all='ignore'):
         f32 = np.float32(fx)
@@ -260,18 +260,23 @@ def flatten(v):
     return [v]
 
 
-def abs_attr(label, v, ctx):
+def abs_attr(label, v, ctx, enum_name=None):
     """valspec of one keyword -> attribute expectation record."""
     val, units = v, None
     if v['t'] in ('setup', 'dict'):
         val, units = v.get('value'), v.get('units')
     rec = {'label': cps(label), 'has_val': val is not None and val['t'] != 'none', 'val': [], 'has_units': False,
-           'units': [], 'judge': not v.get('nojudge', False)}
+           'units': [], 'judge': not v.get('nojudge', False), 'enum_ok': True}
     if rec['has_val']:
         rec['val'] = [abs_scalar(x, ctx) for x in flatten(val)]
     if units is not None and units['t'] != 'none':
         rec['has_units'] = True
         rec['units'] = cps(to_py(units, ctx).value if units['t'] == 'enum' else units['v'])
+    if enum_name and rec['has_val']:
+        # membership in the standard's enumerations is data of dliswriter.utils.enums (trusted), not a verdict
+        from dliswriter.utils import enums
+        members = {m.value for m in getattr(enums, enum_name)}
+        rec['enum_ok'] = all(x['t'] == 'enum' or (x['t'] == 'str' and x['v'] in members) for x in flatten(val))
     return rec
 
 
@@ -371,7 +376,8 @@ def op_add(step, ctx):
     try:
         for k, v in step.get('kw', {}).items():
             if k in table:
-                ev['attrs'].append(abs_attr(table[k][1], v, ctx))
+                kind = table[k][2].rstrip('+')
+                ev['attrs'].append(abs_attr(table[k][1], v, ctx, kind[2:] if kind.startswith('E:') else None))
             kw[k] = to_py(v, ctx)
         if step.get('set_name') is not None:
             kw['set_name'] = step['set_name']
@@ -767,7 +773,7 @@ def run_batch(programs, jobs=16, tmp=None):
     ctx = mp.get_context('fork')
     with ctx.Pool(processes=min(jobs, max(1, len(tasks))), maxtasksperchild=1) as pool:
         res = pool.map(_child, tasks, chunksize=1)
-    traces = [{'id': p['id'], 'events': []} for p in programs]
+    traces = [{'id': p['id'], 'flags': {'cmpproj': bool(p.get('meta', {}).get('cmpproj'))}, 'events': []} for p in programs]
     for pi, r in zip(owner, res):
         if 'machinery_error' in r:
             traces[pi]['machinery_error'] = r['machinery_error']
